@@ -24,6 +24,7 @@ import (
 //          4 as 1, but the stream is the body of the connection's SECOND attempt.  The first response's body is <first>
 //            (one read, clean end): a stream that may set, change and reset the last event ID.  Its events are not part
 //            of the observation; what it leaves behind is the ID the stream under test must be interpreted with.
+//          5 sse.Read's iterator ranged over twice; written out as the entry-0 case the second range is (see postParse)
 //          2 read() as a Connection calls it (retry callback, EOF reported), initial last event ID id0
 //          3 read() as sse.Read calls it (no retry callback, EOF ignored), initial last event ID id0
 //            (2, 3: Parser.Buffer(buf, max) is called iff hasbuf=1 or max>0)
@@ -36,7 +37,63 @@ import (
 //   err    n1 io.EOF | n2 ErrUnexpectedEOF | n3 bufio.ErrTooLong | n4 context error | (n<k>) scripted | n9 other
 // Events are copied the moment they are yielded.  Entry 1 cannot observe retry values.
 
-func init() { families["parse"] = family{gen: genParse, exec: execParse} }
+func init() { families["parse"] = family{gen: genParse, exec: execParse, post: postParse} }
+
+// Entry 5: the iterator sse.Read returned is ranged over TWICE: the first range is left by the consumer at event
+// <stop> (or runs to the end of the input), the second range runs to the end.  Every range reads with a fresh parser
+// from wherever the reader stands, starting with the last event ID the previous range left.  So the second range IS an
+// entry-0 case on the chunks the reader still holds, with that ID: the line is written as that case (postParse), and
+// the model and the oracles judge it like any other.  (The first range is an ordinary entry-0 case with a stop.)
+// exec returns ( (yield ...) n<pulled> n<panic> (x<remaining chunk> ...) x<carried ID> ) for entry 5.
+func postParse(in, obs val.V) (val.V, val.V) {
+	if in.At(0).Int() != 5 {
+		return in, obs
+	}
+	return val.L(val.N(0), obs.At(3), in.At(2), val.L(), in.At(4), obs.At(4), val.S("")),
+		val.L(obs.At(0), obs.At(1), obs.At(2))
+}
+
+func execParseTwice(in val.V, rd *scriptReader, stop int, cfg *sse.ReadConfig) (out val.V) {
+	var yields []val.V
+	remaining := func() val.V {
+		var cs []val.V
+		for _, c := range rd.chunks {
+			if len(c) > 0 {
+				cs = append(cs, val.B(append([]byte(nil), c...)))
+			}
+		}
+		return val.List(cs)
+	}
+	rem, carried := remaining(), ""
+	defer func() {
+		if r := recover(); r != nil {
+			out = val.L(val.List(yields), val.Int(rd.pulled), val.N(1), rem, val.S(carried))
+		}
+	}()
+	it := sse.Read(rd, cfg)
+	events := 0
+	it(func(e sse.Event, err error) bool {
+		if err != nil {
+			yields = append(yields, val.L(val.N(2), projParseErr(err)))
+			return false
+		}
+		yields = append(yields, encEvent(e))
+		carried = strings.Clone(e.LastEventID)
+		events++
+		return stop < 0 || events <= stop
+	})
+	// the second range
+	yields, rem, rd.pulled = nil, remaining(), 0
+	it(func(e sse.Event, err error) bool {
+		if err != nil {
+			yields = append(yields, val.L(val.N(2), projParseErr(err)))
+			return false
+		}
+		yields = append(yields, encEvent(e))
+		return true
+	})
+	return val.L(val.List(yields), val.Int(rd.pulled), val.N(0), rem, val.S(carried))
+}
 
 type scriptReader struct {
 	chunks [][]byte
@@ -137,10 +194,13 @@ func execParse(in val.V) (out val.V) {
 	onRetry := func(n int64) { yields = append(yields, val.L(val.N(1), val.N(uint64(n)))) }
 
 	switch entry {
-	case 0:
+	case 0, 5:
 		var cfg *sse.ReadConfig
 		if hasBuf || maxSize != 0 {
 			cfg = &sse.ReadConfig{MaxEventSize: maxSize}
+		}
+		if entry == 5 {
+			return execParseTwice(in, rd, stop, cfg)
 		}
 		sse.Read(rd, cfg)(consume)
 	case 1, 4:
@@ -237,11 +297,22 @@ func (pc parseCase) emit(c *Ctx) {
 	if prev < len(pc.stream) {
 		chunks = append(chunks, val.S(pc.stream[prev:]))
 	}
+	entry := pc.entry
+	if entry == 0 && c.R.Intn(4) == 0 {
+		entry = 5
+		if pc.stop < 0 && c.R.Bool() {
+			pc.stop = c.R.Intn(3)
+		}
+		if pc.stop >= 0 {
+			c.Count("ranged-twice:after-break")
+		} else {
+			c.Count("ranged-twice:after-the-end")
+		}
+	}
 	stop := val.L()
 	if pc.stop >= 0 {
 		stop = val.L(val.Int(pc.stop))
 	}
-	entry := pc.entry
 	first := ""
 	if entry == 1 && c.R.Intn(3) == 0 {
 		entry = 4
